@@ -68,8 +68,11 @@ func (r *Userns) Compare(other Rule) int {
 
 func (r *Userns) Merge(other Rule) bool {
 	o, _ := other.(*Userns)
+	if !r.Equal(o.Qualifier) {
+		return false
+	}
 	b := &r.Base
-	return b.merge(o.Base) // Always merge userns rules
+	return b.merge(o.Base) // Always merge userns rules with the same qualifier
 }
 
 func (r *Userns) Lengths() []int {
